@@ -17,7 +17,7 @@ Specification spec/P2P.tla (codec part + dispatcher part), bound to kernel/netwo
 (4) sensor: the concurrent driver built with -race; a reported access pair on the subscriber table becomes a
     trace event that only a known deviation of the specification can explain.
 """
-import json, os, re, shutil, subprocess, time
+import json, os, re, subprocess, time
 import vp
 import tracecheck
 
@@ -25,7 +25,8 @@ KF_DESC = {
     "KF_DispatchReadsTableUnlocked":
         "deviation=KF_DispatchReadsTableUnlocked :: Dispatch looks the message type up in the subscriber table "
         "(dispatcher.go:128) before taking mu.RLock; the race detector reports this read against the outer-map "
-        "write of a concurrent first Register of a type (dispatcher.go:75)",
+        "write of a concurrent first Register of a type (dispatcher.go:75), and the Go runtime occasionally aborts "
+        "the process there with 'fatal error: concurrent map read and map write'",
     "KF_EmptyPayloadUndecodable":
         "deviation=KF_EmptyPayloadUndecodable :: a message whose payload encodes to zero bytes (empty proto "
         "message) cannot be decoded once it crossed the wire: Data.MsgInfo arrives as nil and Decompress answers "
@@ -79,7 +80,7 @@ def build(run, race=False):
 
 def drive(run, binary, args, extra_env=None, timeout=900):
     """Run a c20 sub-command; returns (stats, stderr, returncode). A crash is reported to the caller."""
-    env = dict(vp.GOENV, VERIF_SEED=str(run.seed), VERIF_TIER=run.tier, VERIF_WORK=run.sub("go"))
+    env = dict(vp.GOENV, VERIF_SEED=str(run.seed), VERIF_TIER=run.tier, VERIF_WORK=run.sub("go"), GOTRACEBACK="all")
     env.update(extra_env or {})
     try:
         p = subprocess.run([binary] + [str(a) for a in args], cwd=run.work, env=env, stdout=subprocess.PIPE,
@@ -117,7 +118,7 @@ def validate(run, segments, name, known):
                 t = e.get("tr", -1)
                 if (kind, t) not in loc:
                     loc[(kind, t)] = nxt
-                    where[nxt] = (kind, t, behs)
+                    where[nxt] = (kind, e.get("b", t), behs)      # reset lines of concurrent rounds name the behaviour
                     nxt += 1
                 e["tr"] = loc[(kind, t)]
                 out.write(json.dumps(e, sort_keys=True, separators=(",", ":")) + "\n")
@@ -150,8 +151,8 @@ def validate(run, segments, name, known):
             {k: ev.get(k) for k in ("k", "dec", "err", "vc", "hdr", "tried", "delivered", "vcpass", "first", "resp")
              if k in ev}))
     elif ev.get("op") == "race":
-        what = "unsynchronised access to the subscriber table (%s map): %s in %s, write in %s, %s (%s)" % (
-            ev.get("tbl"), "write" if ev.get("ww") else "read", ev.get("rd"), ev.get("wr"),
+        what = "unsynchronised access to the subscriber table (%s map): %s in %s (%s), write in %s, %s (%s)" % (
+            ev.get("tbl"), "write" if ev.get("ww") else "read", ev.get("rd"), ev.get("site"), ev.get("wr"),
             " / ".join(ev.get("lines", [])), ev.get("fatal", "race detector report"))
     else:
         what = ("%s trace %s: no interleaving of the specification explains event %s %s (events of the round: %d)"
@@ -188,15 +189,6 @@ def binding_selftest(run, trace):
     run.cov["binding_selftest"] = "tampered traces (delivery removed / attributed to another subscriber) rejected"
 
 
-def concat(run, name, files):
-    out = os.path.join(run.work, name)
-    with open(out, "w") as o:
-        for f in files:
-            with open(f) as i:
-                shutil.copyfileobj(i, o)
-    return out
-
-
 # ------------------------------------------------------------------------------------------------ race sensor
 def table_of(path, line):
     """Which map of the subscriber table a source line of dispatcher.go touches: the inner map (set of
@@ -212,6 +204,19 @@ def table_of(path, line):
     return "outer"
 
 
+def dispatch_site(path, line):
+    """Is a source line of Dispatch before ("prelock") or after ("locked") the point where mu.RLock() is taken?"""
+    try:
+        src = open(path).read().splitlines()
+    except Exception:
+        raise vp.Undecided("cannot read %s named by a race report" % path)
+    start = next((i for i, l in enumerate(src) if re.match(r"func \(d \*dispatcher\) Dispatch\(", l)), None)
+    if start is None:
+        return "na"
+    rl = next((i for i in range(start, len(src)) if "d.mu.RLock()" in src[i]), None)
+    return "prelock" if rl is None or line - 1 < rl else "locked"
+
+
 def parse_race_reports(text):
     """Go race detector reports -> list of {rd, wr, tbl, ww, lines} for access pairs inside p2p.(*dispatcher);
     everything else is returned as diagnostics."""
@@ -224,40 +229,40 @@ def parse_race_reports(text):
             fn = re.search(r"p2p\.\(\*dispatcher\)\.(\w+)[^\n]*\n\s+(\S+dispatcher\.go):(\d+)", body)
             if fn:
                 acc.append(("write" if "rite" in kind else "read", fn.group(1),
-                            "dispatcher.go:" + fn.group(3), table_of(fn.group(2), int(fn.group(3)))))
+                            "dispatcher.go:" + fn.group(3), table_of(fn.group(2), int(fn.group(3))),
+                            dispatch_site(fn.group(2), int(fn.group(3))) if fn.group(1) == "Dispatch" else "na"))
         if len(acc) == 2:
             tbl = acc[0][3] if acc[0][3] == acc[1][3] else "mixed"
             rd = [a for a in acc if a[0] == "read"]
             wr = [a for a in acc if a[0] == "write"]
             if rd and wr:
-                pairs.append({"rd": rd[0][1], "wr": wr[0][1], "tbl": tbl, "ww": False, "lines": [rd[0][2], wr[0][2]]})
+                pairs.append({"rd": rd[0][1], "site": rd[0][4], "wr": wr[0][1], "tbl": tbl, "ww": False,
+                              "lines": [rd[0][2], wr[0][2]]})
             else:
-                pairs.append({"rd": acc[0][1], "wr": acc[1][1], "tbl": tbl, "ww": True, "lines": [acc[0][2], acc[1][2]]})
+                pairs.append({"rd": acc[0][1], "site": acc[0][4], "wr": acc[1][1], "tbl": tbl, "ww": True,
+                              "lines": [acc[0][2], acc[1][2]]})
         else:
             other.append(block.strip()[:600])
     return pairs, other
 
 
 def parse_map_fatal(stderr):
-    """runtime 'fatal error: concurrent map ...' -> the dispatcher functions involved."""
+    """runtime 'fatal error: concurrent map ...': the goroutine that hit the check (the first one of the dump; for
+    'read and map write' it is the reader). Where the other goroutines are shown is where they had got to when the
+    dump was taken, not where they were at the time of the clash, so the writer stays "unknown"."""
     m = re.search(r"fatal error: (concurrent map [a-z ]+)", stderr)
     if not m:
         return None
-    gs = stderr.split("\ngoroutine ")
-    fns = []
-    for g in gs[1:]:
-        fn = re.search(r"p2p\.\(\*dispatcher\)\.(\w+)", g)
-        if fn:
-            fns.append((("running" in g.split("\n")[0]), fn.group(1)))
-    rd = next((f for r, f in fns if f == "Dispatch"), None)
-    wr = next((f for r, f in fns if f in ("Register", "UnRegister")), None)
-    # the runtime only says that a map was read and written at once; which map is taken from the frames
-    tbl = "unknown"
-    lines = re.findall(r"p2p\.\(\*dispatcher\)\.\w+[^\n]*\n\s+(\S+dispatcher\.go):(\d+)", stderr)
-    if lines:
-        ts = {table_of(p, int(l)) for p, l in lines}
-        tbl = ts.pop() if len(ts) == 1 else "mixed"
-    return {"rd": rd or "unknown", "wr": wr or "unknown", "tbl": tbl, "ww": False, "fatal": m.group(1)}
+    gs = stderr[m.end():].split("\ngoroutine ")
+    first = gs[1] if len(gs) > 1 else ""
+    fr = re.search(r"p2p\.\(\*dispatcher\)\.(\w+)[^\n]*\n\s+(\S+dispatcher\.go):(\d+)", first)
+    if not fr:
+        return {"rd": "unknown", "site": "na", "wr": "unknown", "tbl": "unknown", "ww": False, "fatal": m.group(1), "lines": []}
+    fn, path, line = fr.group(1), fr.group(2), int(fr.group(3))
+    others = sorted({f for g in gs[2:] for f in re.findall(r"p2p\.\(\*dispatcher\)\.(\w+)", g)})
+    return {"rd": fn, "site": dispatch_site(path, line) if fn == "Dispatch" else "na", "wr": "unknown",
+            "tbl": table_of(path, line), "ww": "writes" in m.group(1), "fatal": m.group(1),
+            "lines": ["dispatcher.go:%d" % line], "other_goroutines_in": others}
 
 
 # ------------------------------------------------------------------------------------------------ the check
@@ -273,28 +278,45 @@ def conc_round(run, binary, behs, mode, reps, name, race_log=None):
     env = {}
     if race_log:
         env["GORACE"] = "log_path=%s halt_on_error=0 exitcode=0" % race_log
-    st, err, rc = drive(run, binary, ["disp-conc", "-in", d, "-out", trace, "-mode", mode, "-reps", reps], extra_env=env)
-    extra = []
-    if rc != 0:
-        fatal = parse_map_fatal(err)
-        if not fatal:
-            vp.log(err[-4000:])
+    extra, st, err, start = [], {}, "", 0
+    open(trace, "w").close()
+    for attempt in range(6):
+        part = os.path.join(run.work, name + "_part.ndjson")
+        st1, err1, rc = drive(run, binary, ["disp-conc", "-in", d, "-out", part, "-mode", mode, "-reps", reps,
+                                             "-from", start], extra_env=env)
+        err += err1
+        evs = vp.read_ndjson(part) if os.path.exists(part) else []
+        with open(trace, "a") as f:
+            for e in evs:
+                f.write(json.dumps(e, sort_keys=True, separators=(",", ":")) + "\n")
+        if rc == 0:
+            for k, v in st1.items():
+                st[k] = st.get(k, 0) + v
+            break
+        fatal = parse_map_fatal(err1)
+        if not fatal or attempt == 5:
+            vp.log(err1[-4000:])
             raise vp.Undecided("c20 disp-conc failed (exit %d)" % rc)
-        # the runtime killed the process: the finished rounds are on disk, the crash is a sensor event
-        extra.append(dict(fatal, op="race", tr=-1, i=0))
-        run.cov["runtime_map_fatal"] = fatal
-        evs = vp.read_ndjson(trace) if os.path.exists(trace) else []
-        open_calls, cut, last_reset = {}, len(evs), 0
-        for i, e in enumerate(evs):          # drop the unfinished last round
+        # the Go runtime aborted the process ("concurrent map ..."): the finished rounds are on disk, the abort is
+        # a sensor event, the run continues behind the behaviour that was being executed
+        extra.append(dict(fatal, op="race", tr=-1, i=len(extra)))
+        run.cov.setdefault("runtime_map_fatal", []).append(fatal)
+        resets = [e for e in evs if e["op"] == "reset"]
+        st["rounds"] = st.get("rounds", 0) + len(resets)
+        st["deliveries"] = st.get("deliveries", 0) + sum(1 for e in evs if e["op"] == "dlv")
+        st["calls"] = st.get("calls", 0) + sum(1 for e in evs if e["op"] == "inv")
+        open_calls = set()
+        for e in evs:
             if e["op"] == "reset":
-                last_reset, open_calls = i, {}
+                open_calls = set()
             elif e["op"] == "inv":
-                open_calls[e["g"]] = True
+                st["overlapping_calls"] = st.get("overlapping_calls", 0) + (1 if open_calls else 0)
+                open_calls.add(e["g"])
             elif e["op"] == "ret":
-                open_calls.pop(e["g"], None)
-        if open_calls:
-            cut = last_reset
-        vp.write_ndjson(trace, evs[:cut])
+                open_calls.discard(e["g"])
+        start = (resets[-1]["b"] + 1) if resets else start + 1     # behind the last finished behaviour
+        if start >= len(behs):
+            break
     if race_log:
         text = ""
         for f in sorted(os.listdir(os.path.dirname(race_log))):
@@ -304,7 +326,7 @@ def conc_round(run, binary, behs, mode, reps, name, race_log=None):
         pairs, other = parse_race_reports(text + err)
         seen = set()
         for p in pairs:
-            key = (p["rd"], p["wr"], p["tbl"], p["ww"])
+            key = (p["rd"], p["site"], p["wr"], p["tbl"], p["ww"])
             if key not in seen:
                 seen.add(key)
                 extra.append(dict(p, op="race", tr=-1, i=len(extra)))
@@ -385,7 +407,7 @@ def check(run):
     # earlier in the same program (a dropped repeat), and dispatches that reached >= 2 subscribers
     real_dropped = real_multi = 0
     for _, t, _ in straces:
-        delivered, cur_m, cur_n, cur_tr = set(), None, 0, None
+        delivered, cur_m, cur_n = set(), None, 0
         for e in vp.read_ndjson(t):
             if e["op"] == "reset":
                 delivered, cur_m = set(), None
@@ -422,7 +444,7 @@ def check(run):
     # and the sensor events (explained by known deviations only) in a second one
     if ok:
         binding_selftest(run, straces[0][1])
-        ok = validate(run, [straces[0], ("gated concurrent", gtrace, None), ("free concurrent", ftrace, None)],
+        ok = validate(run, [straces[0], ("gated concurrent", gtrace, cb), ("free concurrent", ftrace, cb)],
                       "disp", known)
     lap("dispatcher_validation")
 
@@ -434,7 +456,7 @@ def check(run):
         if rb is None:
             run.assumptions.append("race detector not available in this environment: sensor skipped")
         else:
-            sub = cb[:40] if quick else cb[:240]
+            sub = cb[:150] if quick else cb[:240]
             for mode in (("gated",) if quick else ("gated", "free")):
                 st, t, sens = conc_round(run, rb, sub, mode, 1, "race_" + mode,
                                          race_log=os.path.join(run.sub("racelog"), "r"))
@@ -442,7 +464,7 @@ def check(run):
                 if sens:
                     race_events += len(vp.read_ndjson(sens))
                     segs.insert(0, ("sensor", sens, None))
-                segs.append(("%s concurrent (race build)" % mode, t, None))
+                segs.append(("%s concurrent (race build)" % mode, t, sub))
         ok = validate(run, segs, "sensor", known)
     run.cov["race_sensor_events"] = race_events
     lap("race_sensor")
@@ -501,6 +523,9 @@ def replay(run, known):
                                "VERIF_SEED=%s ./check C20)" % rp.get("seed"))
         d = tracecheck.dump_behaviours(run, [beh], "replay_in")
         trace = os.path.join(run.work, "replay.ndjson")
-        must(run, binary, ["disp-seq", "-in", d, "-out", trace])
-        validate(run, [("sequential", trace, [beh])], "replay", known)
+        if "concurrent" in kind:        # not deterministic: the behaviour is run 60 times in that mode
+            must(run, binary, ["disp-conc", "-in", d, "-out", trace, "-mode", kind.split()[0], "-reps", 60])
+        else:
+            must(run, binary, ["disp-seq", "-in", d, "-out", trace])
+        validate(run, [(kind or "sequential", trace, [beh])], "replay", known)
     run.finish()
